@@ -291,7 +291,7 @@ class MiniEval:
             return self.eval_call(e, env, scope, depth)
         if isinstance(e, ast.Lambda):
             return ('lambda', e, dict(env), scope)
-        if isinstance(e, ast.ListComp) and len(e.generators) == 1 and not e.generators[0].is_async:
+        if isinstance(e, (ast.ListComp, ast.GeneratorExp)) and len(e.generators) == 1 and not e.generators[0].is_async:
             gen = e.generators[0]
             it = self.eval(gen.iter, env, scope, depth)
             if isinstance(it, Unknown):
@@ -305,7 +305,41 @@ class MiniEval:
             return out
         raise AnalysisError('minieval: unsupported expression %s' % type(e).__name__)
 
+    def apply_value(self, fval, args, depth, where):
+        """call a callable *value* (project function, lambda, bound method, safe builtin)"""
+        if isinstance(fval, Func):
+            return self.call(fval, list(args), {}, depth + 1)
+        if isinstance(fval, tuple) and fval and fval[0] == 'method':
+            return self.call(fval[1], [fval[2]] + list(args), {}, depth + 1)
+        if isinstance(fval, tuple) and fval and fval[0] == 'lambda':
+            _, lam, lenv, lscope = fval
+            env2 = dict(lenv)
+            for a, v in zip(lam.args.args, args):
+                env2[a.arg] = v
+            return self.eval(lam.body, env2, lscope, depth + 1)
+        if isinstance(fval, tuple) and fval and fval[0] == 'builtin':
+            return _SAFE_BUILTINS[fval[1]](*args)
+        if isinstance(fval, tuple) and fval and fval[0] == 'bound' and (type(fval[1]).__name__, fval[2]) in _SAFE_METHODS:
+            return getattr(fval[1], fval[2])(*args)
+        raise AnalysisError('minieval: cannot call the value handed to %s' % where)
+
     def eval_call(self, e, env, scope, depth):
+        fn0 = e.func
+        if isinstance(fn0, ast.Name) and fn0.id in ('map', 'filter') and fn0.id not in env and self._is_builtin(scope, fn0.id) and len(e.args) == 2 and not e.keywords:
+            # map(f, xs) / filter(f, xs) over a known sequence: a list (the evaluator is eager; the helpers it reads are pure)
+            a0 = e.args[0]
+            if isinstance(a0, ast.Constant) and a0.value is None:
+                fval = None
+            elif isinstance(a0, ast.Name) and a0.id in _SAFE_BUILTINS and a0.id not in env and self._is_builtin(scope, a0.id):
+                fval = ('builtin', a0.id)
+            else:
+                fval = self.eval(a0, env, scope, depth)
+            seq = self.eval(e.args[1], env, scope, depth)
+            if isinstance(seq, Unknown):
+                raise AnalysisError('minieval: %s over unknown' % fn0.id)
+            if fn0.id == 'map':
+                return [self.apply_value(fval, [x], depth, 'map') for x in seq]
+            return [x for x in seq if (self.truth(x) if fval is None else self.truth(self.apply_value(fval, [x], depth, 'filter')))]
         args = [self.eval(a, env, scope, depth) for a in e.args]
         kwargs = {k.arg: self.eval(k.value, env, scope, depth) for k in e.keywords}
         fn = e.func
